@@ -189,3 +189,12 @@ func EndGuard()         {}
 
 // Byte is an arbitrary byte input.
 func Byte(name string) byte { return byte(big0(name).Uint64()) }
+
+// SignBytes signs msg with the ed25519 private key of identity i.
+func SignBytes(i int, msg []byte) []byte {
+	sig, err := ed25519.GenPrivKeyFromSecret([]byte{byte(i)}).Sign(msg)
+	if err != nil {
+		panic(err)
+	}
+	return sig
+}
